@@ -40,6 +40,9 @@ import Glom.Model.C01
                     harness reads the frame back from a later chain step); setattr lands on
                     the ChainMap object where no variable lookup sees it (cell unchanged);
                     deletions are C12's (frame unchanged there)
+      scope_outer   (with `scope`) the spec under test is a step of a chain: it runs under a frame of
+                    its own, every variable the cell shows lives in an OUTER map of the ChainMap —
+                    `del scope[UP][name]` raises KeyError("Key not found in the first mapping")
 -/
 namespace Glom.Mut
 open Glom
@@ -145,7 +148,14 @@ def pyDelitem (env : MEnv) (h : Heap) (dest key : Val) : Except PyExc Wr :=
       else if !key.hashable h then .error (exc "TypeError")
       else match delEntry es key with
         | none => .error (exc "KeyError")
-        | some es' => if env.flag c "scope" then .ok { heap := h } else .ok { heap := h.set a (.dict c es'), cell := some a }
+        | some es' =>
+          -- the scope frame (`del chainmap[key]` deletes from the FIRST map only): a Delete that is the
+          -- whole spec unbinds the variable in the root frame (which nothing can look into afterwards:
+          -- cell unchanged); a Delete that is a step of a chain runs under a frame of its own, the
+          -- variables it sees live in outer maps (`scope_outer`): KeyError, nothing is unbound
+          if env.flag c "scope" then
+            (if env.flag c "scope_outer" then .error (exc "KeyError") else .ok { heap := h })
+          else .ok { heap := h.set a (.dict c es'), cell := some a }
     | some (.list c xs) =>
       if env.flag c "raise_delitem" then .error (exc "RuntimeError")
       else match asIndex key with
